@@ -366,6 +366,9 @@ func c14(r *h.Result, rng *h.Rng, tier string, replay string) error {
 	if err := c14MetricModel(r, rng.Fork(), n); err != nil {
 		return err
 	}
+	if err := c14FmtModel(r, rng.Fork(), n); err != nil {
+		return err
+	}
 	c14DirtyLogQL(r, rng.Fork(), n*2)
 	c14Retranslate(r, rng.Fork(), n)
 	if err := c14Shape(r, rng.Fork(), rounds); err != nil {
